@@ -476,7 +476,13 @@ impl DeconstructedPat {
                 fields = match data {
                     None => vec![],
                     Some(PatVariantData::Positional(pat)) => {
-                        vec![DeconstructedPat::from_ast_pat(statics, pat)]
+                        // a void payload has no column of its own (as in the named form below)
+                        let inner = DeconstructedPat::from_ast_pat(statics, pat);
+                        if matches!(inner.ty, Type::Void) {
+                            vec![]
+                        } else {
+                            vec![inner]
+                        }
                     }
                     Some(PatVariantData::Named(named)) => {
                         let variant_def = &enum_def.variants[*variant];
